@@ -1,0 +1,26 @@
+"""Verification hooks (add-only instrumentation).
+
+Disabled unless the environment variable PB_BSS_VERIF is "1" when pb_bss is
+imported.  When disabled, `enabled` is False and no hook line does anything.
+When enabled, registered callbacks receive (event, fields) for every emitted
+event; the fields are the live objects of the calling loop (not copies).
+"""
+import os
+
+enabled = os.environ.get('PB_BSS_VERIF') == '1'
+_callbacks = []
+
+
+def register(callback):
+    _callbacks.append(callback)
+    return callback
+
+
+def unregister(callback):
+    if callback in _callbacks:
+        _callbacks.remove(callback)
+
+
+def emit(event, **fields):
+    for callback in list(_callbacks):
+        callback(event, fields)
